@@ -39,9 +39,12 @@ structure Env where
 inductive Msg
   | chunk (c : Chunk)                       -- ChunkResponse; `c.sender` is the peer it came from
   | snap (peer : String) (s : Snapshot)     -- SnapshotsResponse
+  | stop (peer : String)                    -- an invalid message: the switch stops the peer, the
+                                            -- reactor's RemovePeer reaches `syncer.RemovePeer`
 deriving DecidableEq, Repr
 
 inductive OfferRes | accept | abort | reject | rejectFormat | rejectSender | unknown | error
+  | deadline    -- the ABCI call fails with context.DeadlineExceeded
 deriving DecidableEq, Repr
 
 structure OfferV where
@@ -50,6 +53,7 @@ structure OfferV where
 deriving Repr
 
 inductive ApplyRes | accept | abort | retry | retrySnapshot | rejectSnapshot | unknown | error
+  | deadline
 deriving DecidableEq, Repr
 
 structure ApplyV where
@@ -65,6 +69,7 @@ inductive InfoV
   | error
   | echo                                             -- the application reports exactly what is expected
   | info (appVersion : Nat) (hash : Bytes) (height : Int)   -- LastBlockHeight is an int64
+  | deadline                                         -- the call fails with context.DeadlineExceeded
 deriving DecidableEq, Repr
 
 structure Script where
@@ -90,6 +95,7 @@ inductive Ev
   | arriveChunk (c : Chunk) (r : ArriveRes)
   | arriveSnap (peer : String) (s : Snapshot) (added : Bool)
   | raceChunk (c : Chunk)       -- an `AddChunk` racing with the rejection of its sender
+  | peerStopped (peer : String)
 deriving DecidableEq, Repr
 
 /-- the syncer: pool, `SyncAny`'s chunk queue, whether `s.chunks` points to it, and the journal
@@ -103,6 +109,7 @@ structure Sy where
 inductive SyncErr
   | abort | retrySnapshot | rejectSnapshot | rejectFormat | rejectSender | verifyFailed | timeout
   | noWitness | other
+  | deadline     -- an ABCI error wrapping context.DeadlineExceeded: `SyncAny` rejects the snapshot
 deriving DecidableEq, Repr
 
 variable (recent : Nat)
@@ -129,6 +136,7 @@ def deliver (sy : Sy) (m : Msg) : Sy :=
   | .snap peer s =>
     let (p', added) := sy.pool.add recent peer s
     { sy with pool := p', journal := sy.journal ++ [.arriveSnap peer s added] }
+  | .stop peer => { sy with pool := sy.pool.removePeer peer, journal := sy.journal ++ [.peerStopped peer] }
 
 def deliverAll (sy : Sy) (ms : List Msg) : Sy := ms.foldl (deliver recent) sy
 
@@ -151,6 +159,7 @@ def verifyApp (snap : Snapshot) (trusted : Bytes) (appVersion : Nat) (v : InfoV)
     else if hash ≠ trusted then .error .verifyFailed
     else if toU64 height ≠ snap.height then .error .verifyFailed
     else .ok ()
+  | .deadline => .error .deadline
 
 /-- the standard bytes the fallback peer serves for chunk `i` -/
 def stdBody (i : Nat) : Bytes := [UInt8.ofNat (i % 256), 0xfb]
@@ -239,7 +248,7 @@ def applyOne (c : Chunk) (sy : Sy) (sc : Script) : ApplyRes × Sy × Script :=
   let (v, sc) := popApply sc
   let sy := log sy (.apply c.index (c.body.getD []) c.sender v.result v.refetch v.rejectSenders)
   let sy := deliverAll recent sy v.pre
-  if v.result = .error then (.error, sy, sc)
+  if v.result = .error ∨ v.result = .deadline then (v.result, sy, sc)
   else
     let sy := logAll sy ((racing v).map .raceChunk)
     let (sy, sc) := doRefetch recent v.refetch sy sc
@@ -268,6 +277,7 @@ def applyChunks (snap : Snapshot) : Nat → Sy → Script → Except SyncErr Uni
         | (.rejectSnapshot, sy, sc) => (.error .rejectSnapshot, sy, sc)
         | (.unknown, sy, sc) => (.error .other, sy, sc)
         | (.error, sy, sc) => (.error .other, sy, sc)
+        | (.deadline, sy, sc) => (.error .deadline, sy, sc)
 
 def provErr {α : Type} : ProvRes α → SyncErr
   | .noWitness => .noWitness
@@ -291,6 +301,7 @@ def syncBody (env : Env) (snap : Snapshot) (fuel : Nat) (sy : Sy) (sc : Script) 
     | .rejectSender => (.error .rejectSender, sy, sc)
     | .unknown => (.error .other, sy, sc)
     | .error => (.error .other, sy, sc)
+    | .deadline => (.error .deadline, sy, sc)
     | .accept =>
       let (sy, sc) := gapStep recent sy sc
       let sy := log sy (.provState snap.height)
@@ -366,6 +377,7 @@ def syncAny (choose : Pool → Option Snapshot) (env : Env) (fuel : Nat) :
           | .rejectSender =>
             syncAny choose env fuel n none
               (closeQ { sy with pool := (sy.pool.getPeers snap).foldl Pool.rejectPeer sy.pool }) sc
+          | .deadline => syncAny choose env fuel n none (closeQ { sy with pool := sy.pool.reject snap }) sc
           | e => (.failed e, { sy with queue := sy.queue.map (·.close) }, sc)
 
 end Tmv.StateSync
